@@ -385,6 +385,9 @@ func genPicture(r *prng.R) *picture {
 			p.minus = "_"
 			p.options["minus-sign"] = "_"
 		}
+	} else if r.Intn(8) == 0 {
+		p.minus = r.Pick("_", "−", "~", "m")
+		p.options = O{"minus-sign": p.minus}
 	}
 	p.intOpt, p.intMand = r.Intn(4), r.Intn(4)
 	p.hasPoint = r.Intn(3) > 0
@@ -597,6 +600,12 @@ func (p *picture) checkFormatted(x float64, out string) string {
 		}
 		if len(es) < p.expDigits {
 			return fmt.Sprintf("%d exponent digits, the picture demands %d", len(es), p.expDigits)
+		}
+		for _, c := range es {
+			if c < '0' || c > '9' {
+				// in particular an ASCII '-' when the format's minus sign is another character
+				return fmt.Sprintf("the exponent %q is not the format's minus sign (%q) followed by digits", exps, p.minus)
+			}
 		}
 		n, err := strconv.Atoi(es)
 		if err != nil {
